@@ -1,7 +1,43 @@
-(* placeholder until the codec theorems land *)
+(* C15 - the key-stretching function is applied once, on the OPRF output, and bound
+   into every secret.  Statements only. *)
 From Coq Require Import List.
-From OKE Require Import BytesLemmas.
-Theorem C15_placeholder : forall l x y px py r1 r2,
-  Bytes.lenprefix l x = Some px -> Bytes.lenprefix l y = Some py -> px ++ r1 = py ++ r2 -> x = y /\ r1 = r2.
-Proof. exact lenprefix_inj. Qed.
-Print Assumptions C15_placeholder.
+From OKE Require Import Bytes Suite Hkdf Voprf Messages Envelope Opaque Accept.
+
+(* both finish steps depend on the stretching function only through its value at the OPRF output *)
+Theorem C15_registration_ksf_once :
+  forall E Sc Pk Sk (CS : Suite E Sc Pk Sk) st tape pw r ids (f g : ksf_fn) y,
+    voprf_finalize (hash CS) (oprf CS) (crs_blind st) pw (rr_eval r) = Ok y -> f y = g y ->
+    client_registration_finish CS st tape pw r ids (Some f) = client_registration_finish CS st tape pw r ids (Some g).
+Proof. exact @registration_finish_ksf_congr. Qed.
+Print Assumptions C15_registration_ksf_once.
+
+Theorem C15_login_ksf_once :
+  forall E Sc Pk Sk (CS : Suite E Sc Pk Sk) st pw r ctx ids (f g : ksf_fn) y,
+    voprf_finalize (hash CS) (oprf CS) (cl_blind st) pw (cr_eval r) = Ok y -> f y = g y ->
+    client_login_finish CS st pw r ctx ids (Some f) = client_login_finish CS st pw r ctx ids (Some g).
+Proof. exact @login_finish_ksf_congr. Qed.
+Print Assumptions C15_login_ksf_once.
+
+(* passing no instance is passing the default instance *)
+Theorem C15_default :
+  forall E Sc Pk Sk (CS : Suite E Sc Pk Sk) input blind ev,
+    get_password_derived_key CS input blind ev None =
+    get_password_derived_key CS input blind ev (Some (ksf_default CS)).
+Proof. exact @ksf_default_explicit. Qed.
+Print Assumptions C15_default.
+
+(* a failure of the stretching function is returned as KsfError *)
+Theorem C15_error :
+  forall E Sc Pk Sk (CS : Suite E Sc Pk Sk) input blind ev (f : ksf_fn) y,
+    voprf_finalize (hash CS) (oprf CS) blind input ev = Ok y -> f y = None ->
+    get_password_derived_key CS input blind ev (Some f) = Err (ELibrary LKsfError).
+Proof. exact @ksf_error. Qed.
+Print Assumptions C15_error.
+
+(* the stretched value is bound into the randomized password from which every secret is expanded *)
+Theorem C15_bound :
+  forall E Sc Pk Sk (CS : Suite E Sc Pk Sk) input blind ev (f : ksf_fn) y z,
+    voprf_finalize (hash CS) (oprf CS) blind input ev = Ok y -> f y = Some z ->
+    get_password_derived_key CS input blind ev (Some f) = Ok (hkdf_extract (hash CS) None (y ++ z)).
+Proof. exact @ksf_bound. Qed.
+Print Assumptions C15_bound.
